@@ -30,6 +30,7 @@ func vhTrimSpaces(s string) string {
 
 // one comment line assembled from symbolic parts
 type vhBounds struct {
+	freeAlphabet  string
 	freeMax       int
 	nameMax       int
 	valueAlphabet string
@@ -42,7 +43,7 @@ type vhBounds struct {
 func vhMakeLine(tag string, b vhBounds) vhLine {
 	var l vhLine
 	if symxChoice(tag+".kind", 2) == 0 {
-		body := symxString(tag+".free", 0, b.freeMax, "a ")
+		body := symxString(tag+".free", 0, b.freeMax, b.freeAlphabet)
 		l.text = "//" + " " + body
 		l.free = vhTrimSpaces(" " + body)
 		return l
@@ -187,15 +188,20 @@ func vhC16(nLines int, b vhBounds) {
 
 // one attribute line, rich description (the regex must not split the line differently from how it was written)
 func vh_C16_line_desc_Q() {
-	vhC16(1, vhBounds{freeMax: 2, nameMax: 1, valueAlphabet: "a}", valueMax: 1, descAlphabet: "a )},{", descMax: 4, jsons: 3})
+	vhC16(1, vhBounds{freeAlphabet: "a ", freeMax: 2, nameMax: 1, valueAlphabet: "a}", valueMax: 1, descAlphabet: "a )},{", descMax: 4, jsons: 3})
 }
 
 // one attribute line, rich value
 func vh_C16_line_value_Q() {
-	vhC16(1, vhBounds{freeMax: 2, nameMax: 2, valueAlphabet: "a-/{} ", valueMax: 3, descAlphabet: "a)", descMax: 1, jsons: 2})
+	vhC16(1, vhBounds{freeAlphabet: "a ", freeMax: 2, nameMax: 2, valueAlphabet: "a-/{} ", valueMax: 3, descAlphabet: "a)", descMax: 1, jsons: 2})
 }
 
 // blocks of lines: order, free text, entity description
 func vh_C16_block3_Q() {
-	vhC16(3, vhBounds{freeMax: 2, nameMax: 1, valueAlphabet: "a", valueMax: 1, descAlphabet: "a", descMax: 1, jsons: 1})
+	vhC16(3, vhBounds{freeAlphabet: "a ", freeMax: 2, nameMax: 1, valueAlphabet: "a", valueMax: 1, descAlphabet: "a", descMax: 1, jsons: 1})
+}
+
+// free-text lines with slashes and blanks: only the comment marker and the surrounding blanks are stripped
+func vh_C16_freetext_Q() {
+	vhC16(2, vhBounds{freeAlphabet: "a /", freeMax: 4, nameMax: 1, valueAlphabet: "a", valueMax: 1, descAlphabet: "a", descMax: 1, jsons: 1})
 }
